@@ -1,1 +1,118 @@
-import BigtreeModel.Basic
+import BigtreeModel.Export
+import BigtreeModel.Newick
+import BigtreeProofs.Lemmas.ExportRoundtrip
+/-!
+# C06 — exports are complete; export ∘ import = identity
+
+Model: `BigtreeModel/Export.lean` (dict / DataFrame rows / nested dict and their constructors) and
+`BigtreeModel/Newick.lean` (writer, parser state machine). Helper lemmas: `Lemmas/Export*.lean`,
+`Lemmas/Newick*.lean`.
+
+Hypotheses of the round trips (`AllNodes NodeOK t`: what the `Node` class guarantees — non-empty
+names, distinct attribute keys, sibling-unique names; `AllNodes (SepFree sep) t`: no name contains
+the separator) are exactly the "documented alphabet" of the property.
+-/
+
+namespace C06
+open Export
+
+/-! ## completeness: one record per selected node, in pre-order -/
+
+/-- `tree_to_dataframe` / `tree_to_polars`: the list of records handed to the DataFrame constructor
+is exactly one `record` (path, name, parent name, requested attributes) per node admitted by
+`max_depth` / `skip_depth` / `leaf_only`, in pre-order — for every start node (`anc`) and options. -/
+theorem rows_complete (o : Opts) (sep : Char) (anc : List Str) (t : Tree) :
+    treeToRows o sep anc t
+      = ((preCtx anc t).filter (selected o)).map fun x => record o sep x.1 x.2 := by
+  unfold treeToRows
+  rw [appendRows_eq]
+  rfl
+
+/-- `tree_to_dict`, unconditionally: the dictionary is the result of assigning
+`d[path_name] = record` for the selected nodes in pre-order. -/
+theorem dict_complete_assign (o : Opts) (sep : Char) (anc : List Str) (t : Tree) :
+    treeToDict o sep anc t
+      = (((preCtx anc t).filter (selected o)).map fun x =>
+          (pathName sep x.1 x.2.name, record o sep x.1 x.2)).foldl (fun d e => dset d e.1 e.2) [] := by
+  unfold treeToDict
+  rw [appendDict_eq]
+  rfl
+
+/-- `tree_to_dict` on a tree with sibling-unique, separator-free, non-empty names: no two nodes
+share a key, so the dictionary lists exactly one (path, record) entry per selected node, in pre-order. -/
+theorem dict_complete (o : Opts) (sep : Char) (anc : List Str) (t : Tree)
+    (h1 : AllNodes NodeOK t) (h2 : AllNodes (SepFree sep) t) (hanc : ∀ s ∈ anc, s ≠ [] ∧ sep ∉ s) :
+    treeToDict o sep anc t
+      = ((preCtx anc t).filter (selected o)).map fun x =>
+          (pathName sep x.1 x.2.name, record o sep x.1 x.2) :=
+  treeToDict_eq o sep t anc h1 h2 hanc
+
+/-- distinct nodes have distinct paths (what makes the dictionary keys and the path column identify nodes) -/
+theorem paths_distinct (sep : Char) (anc : List Str) (t : Tree)
+    (h1 : AllNodes NodeOK t) (h2 : AllNodes (SepFree sep) t) (hanc : ∀ s ∈ anc, s ≠ [] ∧ sep ∉ s) :
+    ((preCtx anc t).map fun x => pathName sep x.1 x.2.name).Nodup :=
+  paths_nodup sep t anc h1 h2 hanc
+
+/-- `tree_to_nested_dict`: when the start node is within `max_depth`, the result mirrors, node for
+node and in sibling order, the tree cut at `max_depth` (each node carrying its name and requested
+attributes). -/
+theorem nested_complete (o : Opts) (anc : List Str) (t : Tree)
+    (h : o.maxDepth = 0 ∨ anc.length + 1 ≤ o.maxDepth) :
+    treeToNested o anc t = some (mirror o (cutDepth o.maxDepth (anc.length + 1) t)) := by
+  unfold treeToNested
+  rw [nestedOf_eq o t (anc.length + 1) (by rcases h with h | h <;> simp [h])]
+  rfl
+
+/-- the scope exclusion of DESIGN §5: below `max_depth` the nested format has no value (`KeyError`) -/
+theorem nested_empty (o : Opts) (anc : List Str) (t : Tree)
+    (h : o.maxDepth ≠ 0 ∧ o.maxDepth < anc.length + 1) : treeToNested o anc t = none := by
+  unfold treeToNested
+  cases t with
+  | node i n a cs =>
+    have : (o.maxDepth == 0 || decide (anc.length + 1 ≤ o.maxDepth)) = false := by
+      have h1 : ¬ (anc.length + 1 ≤ o.maxDepth) := by omega
+      simp [h.1, h1]
+    rw [nestedOf, this]
+    rfl
+
+/-! ## round trips -/
+
+/-- `dict_to_tree (tree_to_dict t, all_attrs=True) = t` in names, shape, sibling order and public
+attributes (`canon t`: ids forgotten, attributes as `describe` lists them). -/
+theorem dict_roundtrip (sep : Char) (t : Tree) (h1 : AllNodes NodeOK t) (h2 : AllNodes (SepFree sep) t) :
+    dictToTree sep (treeToDict (fullOpts []) sep [] t) = some (canon t) := by
+  rw [treeToDict_eq (fullOpts []) sep t [] h1 h2 (by intro s hs; cases hs)]
+  cases t with
+  | node i n a cs => exact dictToTree_full sep i n a cs h1 h2
+
+/-- `nested_dict_to_tree (tree_to_nested_dict t, all_attrs=True) = t`, from any start node. -/
+theorem nested_roundtrip (anc : List Str) (t : Tree) (h : AllNodes NodeOK t) :
+    (treeToNested (fullOpts []) anc t).bind (nestedToTree strName) = some (canon t) := by
+  rw [nested_complete (fullOpts []) anc t (Or.inl rfl)]
+  simp only [fullOpts, cutDepth_zero, Option.bind_some]
+  exact nestedToTree_mirror [] t h
+
+/-! ## non-vacuity -/
+
+/-- a five-node tree with hostile names and attributes -/
+def exTree : Tree :=
+  .node 7 "a".toList [("B".toList, .int 3), ("A".toList, .str "x y".toList)] [
+    .node 8 "b (c)".toList [] [.node 9 "a".toList [("K".toList, .null)] []],
+    .node 10 "c:d".toList [("A".toList, .int 0)] [.node 11 "b (c)".toList [] []]]
+
+theorem exTree_ok : AllNodes NodeOK exTree := by
+  simp [exTree, AllNodes, AllNodesL, NodeOK]
+
+theorem exTree_sepfree : AllNodes (SepFree '/') exTree := by
+  simp [exTree, AllNodes, AllNodesL, SepFree]
+
+example : (treeToRows { pathCol := "path".toList, skipDepth := 1, leafOnly := true } '/' [] exTree).length = 2 := by
+  decide
+example : dictToTree '/' (treeToDict (fullOpts []) '/' [] exTree) = some (canon exTree) :=
+  dict_roundtrip '/' exTree exTree_ok exTree_sepfree
+example : canon exTree ≠ .node 0 "a".toList [] [] := by decide
+example : (treeToNested { maxDepth := 2 } [] exTree).map (fun x => x.kids.length) = some 2 := by decide
+example : (treeToNested (fullOpts []) [] exTree).bind (nestedToTree strName) = some (canon exTree) :=
+  nested_roundtrip [] exTree exTree_ok
+
+end C06
